@@ -95,31 +95,35 @@ Section Ctx.
     - destruct e; try (apply IH; exact Hc).
       destruct (assoc n (sd_attrs pred)) as [ty|]; [|ein; assumption].
       destruct rest as [|e2 rest2]; [ein|].
-      destruct e2; destruct ty as [p|p l];
-        first [ solve [ein; assumption]
-              | destruct (struct_of_prim E p); [apply IH; exact Hc | solve [ein; assumption]] ].
+      destruct ty as [p|p l]; destruct (is_index e2); try solve [ein; assumption];
+        (destruct (struct_of_prim E p); [apply IH; exact Hc | solve [ein; assumption]]).
   Qed.
 
   Lemma ctx_check_attribute_access : forall (Q : ctx -> Prop) T c v es,
     Q c -> errs_in Q (check_attribute_access E T c v es).
   Proof.
     intros. unfold check_attribute_access.
-    destruct (assoc v (td_vars T)) as [[p|p l]|]; [|solve [ein]|solve [ein; assumption]].
+    destruct (assoc v (td_vars T)) as [[p|p l]|]; [|solve [ein; assumption]|solve [ein; assumption]].
     destruct (struct_of_prim E p); [apply ctx_caa_loop; assumption | solve [ein; assumption]].
   Qed.
-
-  Lemma ctx_lift_bool : forall Q r k, (forall b, errs_in Q (k b)) -> errs_in Q (lift_bool r k).
-  Proof. intros Q r k Hk. unfold lift_bool. destruct r; try (apply errs_in_not_ok; intros; discriminate). apply Hk. Qed.
 
   Lemma ctx_check_expression : forall (Q : ctx -> Prop) T c e, Q c -> errs_in Q (check_expression E T c e).
   Proof.
     intros Q T c e Hc. induction e; cbn [check_expression]; try solve [ein]; try assumption.
     - unfold check_single_path. apply errs_in_andthen; [apply ctx_check_attribute_access; assumption|].
-      destruct (get_type_of_variable_list E T v p) as [[[| | |s]|p0 l]| |k|]; ein; assumption.
+      destruct (get_type_of_variable_list E T v p) as [[[| | |s]|p0 l]|]; ein; assumption.
     - destruct (is_cmp o); [|destruct (is_arith o)].
-      + apply ctx_lift_bool. intros [|]; [ein|]. apply ctx_lift_bool. intros [|]; ein; assumption.
-      + apply ctx_lift_bool. intros [|]; ein; assumption.
+      + destruct (expression_is_number E T e1 && expression_is_number E T e2); [ein|].
+        destruct (expression_is_string E T e1 && expression_is_string E T e2); ein; assumption.
+      + destruct (expression_is_number E T e1 && expression_is_number E T e2); ein; assumption.
       + apply errs_in_andthen; assumption.
+  Qed.
+
+  Lemma ctx_check_limit : forall (Q : ctx -> Prop) T c lim, Q c -> errs_in Q (check_limit E T c lim).
+  Proof.
+    intros Q T c lim Hc. unfold check_limit. destruct lim; [ein|].
+    apply errs_in_andthen; [apply ctx_check_attribute_access; assumption|].
+    destruct (expression_is_number E T (EPath v p)); ein; assumption.
   Qed.
 
   Lemma ctx_check_missing : forall (Q : ctx -> Prop) c defattrs fs, Q c -> errs_in Q (check_missing c defattrs fs).
@@ -154,8 +158,10 @@ Section Ctx.
       try (intros Q jctx ictx def id Hj Hi; cbn [check_attr_type];
            destruct (assoc id (sd_attrs def)) as [[p|p len]|]; try solve [ein; assumption]).
     - destruct (struct_of_prim E p) as [sd'|]; [|solve [ein; assumption]].
+      apply errs_in_band; [apply ctx_check_missing; assumption|].
       clear - H Hj. induction fs as [|[id' v'] r IHr]; [ein|].
-      inversion H; subst. apply errs_in_band; [apply H2; assumption | apply IHr; assumption].
+      inversion H; subst. apply errs_in_band; [|apply IHr; assumption].
+      destruct (has_key id' (sd_attrs sd')); [apply H2; assumption | ein; assumption].
     - clear - H. eapply Forall_impl; [|exact H]. intros a Ha. apply Ha.
     - apply ctx_arr_wrap; [assumption|].
       generalize (length vs) as n. intro n.
@@ -209,6 +215,7 @@ Section Ctx.
   Proof.
     intros. unfold check_task_call.
     destruct (has_key (c_name c) (e_tasks E)); [|ein; left; reflexivity].
+    destruct (task_reaches E (length (e_tasks E)) (c_name c) (td_name T)); [ein; left; reflexivity|].
     apply errs_in_andthen; [apply ctx_check_call_parameters|].
     unfold check_call_matches. destruct (find_tdef E (c_name c)) as [called|]; [|ein].
     apply errs_in_andthen.
@@ -232,8 +239,11 @@ Section Ctx.
       + apply errs_in_forall_from. intros j x Hin. rewrite Forall_forall in H.
         eapply errs_in_weaken; [|apply (H x Hin)]. intros c0 Hc0. apply (ctx_under_app _ pi [j]). exact Hc0.
       + apply ctx_check_expression. apply ctx_at_under. left. reflexivity.
-    - destruct par.
-      + destruct (is_single_call b); ein. apply ctx_at_under. left. reflexivity.
+    - destruct par; (apply errs_in_band; [apply ctx_check_limit; apply ctx_at_under; left; reflexivity|]).
+      + destruct b as [|s0 [|s1 r]]; try (ein; apply ctx_at_under; left; reflexivity).
+        destruct s0; try (ein; apply ctx_at_under; left; reflexivity).
+        eapply errs_in_weaken; [|apply ctx_check_task_call].
+        intros c0 Hc0. apply (ctx_under_app _ pi [0]). apply ctx_at_under. exact Hc0.
       + apply errs_in_forall_from. intros j x Hin. rewrite Forall_forall in H.
         eapply errs_in_weaken; [|apply (H x Hin)]. intros c0 Hc0. apply (ctx_under_app _ pi [j]). exact Hc0.
     - apply errs_in_band; [|apply errs_in_band].
@@ -340,27 +350,21 @@ Theorem checker_messages_have_position : forall E b es e,
   validate_process E = Ok (b, es) -> In e es -> snd e <> CNone.
 Proof. intros E b es e H He. exact (position_validate_process E b es H e He). Qed.
 
-(* ---- the visitor's messages: only "Array length has to be specified by an integer" lacks a
-   position, and it is printed only for an array length given by a name ---- *)
-From PFDL.Check Require Import Guards.
-
-Lemma has_lenvar_app : forall a b, has_lenvar_defs (a ++ b) = has_lenvar_defs a || has_lenvar_defs b.
+(* ---- the visitor's messages all carry the definition they are about ---- *)
+Lemma arraylen_errs_position : forall (mk : nat -> ctx) l e,
+  (forall j, mk j <> CNone) -> In e (arraylen_errs mk l) -> snd e <> CNone.
 Proof.
-  induction a as [|[k t] r IH]; intro b; [reflexivity|]. cbn [app has_lenvar_defs].
-  destruct t as [p|p [| |v]]; try apply IH. reflexivity.
-Qed.
-
-Lemma arraylen_errs_nil : forall l, has_lenvar_defs l = false -> arraylen_errs l = [].
-Proof.
-  induction l as [|[k t] r IH]; intro H; [reflexivity|]. cbn [has_lenvar_defs] in H. unfold arraylen_errs in *.
-  cbn [flat_map snd]. destruct t as [p|p [| |v]]; try discriminate; cbn [app]; apply IH; exact H.
+  intros mk l e Hmk He. unfold arraylen_errs in He. apply in_flat_map in He.
+  destruct He as ([j [k t]] & _ & He). cbn [fst snd] in He.
+  destruct t as [p0|p0 [| |v]]; cbn in He; try contradiction. destruct He as [<-|[]]. apply Hmk.
 Qed.
 
 Lemma outs_visit_errs_position : forall ti pi outs e,
-  has_lenvar_defs outs = false -> In e (outs_visit_errs ti pi outs) -> snd e <> CNone.
+  In e (outs_visit_errs ti pi outs) -> snd e <> CNone.
 Proof.
-  intros ti pi outs e H He. unfold outs_visit_errs in He. rewrite (arraylen_errs_nil _ H) in He.
-  cbn [app] in He. apply in_map_iff in He. destruct He as (j & <- & _). discriminate.
+  intros ti pi outs e He. unfold outs_visit_errs in He. apply in_app_or in He. destruct He as [He|He].
+  - eapply arraylen_errs_position; [|exact He]. intro j. discriminate.
+  - apply in_map_iff in He. destruct He as (j & <- & _). discriminate.
 Qed.
 
 Lemma concat_from_in : forall f l i e, In e (concat_from f i l) -> exists j x, In x l /\ In e (f j x).
@@ -371,36 +375,23 @@ Proof.
   - destruct (IH _ _ H) as (j & x & Hx & He). exists j, x. split; [right; exact Hx | exact He].
 Qed.
 
-Lemma has_lenvar_flat_map_in : forall (l : list stmt) x,
-  has_lenvar_defs (flat_map stmt_decls_raw l) = false -> In x l -> has_lenvar_defs (stmt_decls_raw x) = false.
-Proof.
-  induction l as [|y r IH]; intros x H Hin; [destruct Hin|]. cbn [flat_map] in H.
-  rewrite has_lenvar_app in H. apply orb_false_iff in H. destruct H as [H1 H2].
-  destruct Hin as [->|Hin]; [exact H1 | apply IH; assumption].
-Qed.
-
 Lemma stmt_visit_errs_position : forall ti s pi e,
-  has_lenvar_defs (stmt_decls_raw s) = false -> In e (stmt_visit_errs ti pi s) -> snd e <> CNone.
+  In e (stmt_visit_errs ti pi s) -> snd e <> CNone.
 Proof.
-  intros ti s. induction s using stmt_ind'; intros pi er Hl He; rewrite stmt_visit_errs_unfold in He;
-    cbn [stmt_decls_raw] in Hl.
+  intros ti s. induction s using stmt_ind'; intros pi er He; rewrite stmt_visit_errs_unfold in He.
   - eapply outs_visit_errs_position; eassumption.
   - eapply outs_visit_errs_position; eassumption.
   - apply in_flat_map in He. destruct He as ([j c] & Hin & He). cbn [fst snd] in He.
-    eapply outs_visit_errs_position; [|exact He].
-    clear - Hl Hin. revert Hin. generalize 0. induction cs as [|c0 r IH]; intros i Hin; [destruct Hin|].
-    cbn [flat_map] in Hl. rewrite has_lenvar_app in Hl. apply orb_false_iff in Hl. destruct Hl as [H1 H2].
-    destruct Hin as [Heq|Hin]; [injection Heq as _ <-; exact H1 | eapply IH; eassumption].
+    eapply outs_visit_errs_position; exact He.
   - destruct (concat_from_in _ _ _ _ He) as (j & x & Hx & Hex). rewrite Forall_forall in H.
-    eapply H; [exact Hx | eapply has_lenvar_flat_map_in; eassumption | exact Hex].
+    eapply H; [exact Hx | exact Hex].
   - destruct (concat_from_in _ _ _ _ He) as (j & x & Hx & Hex). rewrite Forall_forall in H.
-    eapply H; [exact Hx | eapply has_lenvar_flat_map_in; eassumption | exact Hex].
-  - rewrite has_lenvar_app in Hl. apply orb_false_iff in Hl. destruct Hl as [Hp Hf].
-    apply in_app_or in He. destruct He as [He|He].
+    eapply H; [exact Hx | exact Hex].
+  - apply in_app_or in He. destruct He as [He|He].
     + destruct (concat_from_in _ _ _ _ He) as (j & x & Hx & Hex). rewrite Forall_forall in H.
-      eapply H; [exact Hx | exact (has_lenvar_flat_map_in _ _ Hp Hx) | exact Hex].
+      eapply H; [exact Hx | exact Hex].
     + destruct (concat_from_in _ _ _ _ He) as (j & x & Hx & Hex). rewrite Forall_forall in H0.
-      eapply H0; [exact Hx | exact (has_lenvar_flat_map_in _ _ Hf Hx) | exact Hex].
+      eapply H0; [exact Hx | exact Hex].
 Qed.
 
 Lemma in_index_from_inv : forall A (l : list A) i j x, In (j, x) (index_from i l) -> In x l.
@@ -409,43 +400,35 @@ Proof.
   destruct H as [H|H]; [injection H as _ <-; left; reflexivity | right; eapply IH; exact H].
 Qed.
 
-Theorem messages_have_position_without_lenvar : forall p es e,
-  sh_lenvar p = false -> validate p = Ok es -> In e es -> snd e <> CNone.
+Lemma visit_errs_position : forall p e, In e (visit_errs p) -> snd e <> CNone.
 Proof.
-  intros p es e Hs Hv He. unfold validate in Hv.
-  destruct (validate_process (visit_env p)) as [[b es0]| |k|] eqn:Hp; try discriminate.
-  injection Hv as <-. apply in_app_or in He. destruct He as [He|He];
-    [|eapply checker_messages_have_position; eassumption].
-  unfold sh_lenvar in Hs. apply orb_false_iff in Hs. destruct Hs as [Hss Hst].
-  unfold visit_errs in He.
+  intros p e He. unfold visit_errs in He.
   apply in_app_or in He. destruct He as [He|He].
-  { apply in_flat_map in He. destruct He as ([i s] & Hin & He). cbn [fst snd] in He.
-    apply in_index_from_inv in Hin.
-    assert (Hls : has_lenvar_defs (s_attrs s) = false).
-    { destruct (has_lenvar_defs (s_attrs s)) eqn:Hx; [|reflexivity].
-      assert (existsb (fun s0 => has_lenvar_defs (s_attrs s0)) (p_structs p) = true)
-        by (apply existsb_exists; exists s; auto). congruence. }
-    unfold struct_visit_errs in He. rewrite (arraylen_errs_nil _ Hls) in He. cbn [app] in He.
-    apply in_map_iff in He. destruct He as (j & <- & _). discriminate. }
+  { apply in_flat_map in He. destruct He as ([i s] & _ & He). cbn [fst snd] in He.
+    unfold struct_visit_errs in He. apply in_app_or in He. destruct He as [He|He].
+    - eapply arraylen_errs_position; [|exact He]. intro j. discriminate.
+    - apply in_map_iff in He. destruct He as (j & <- & _). discriminate. }
   apply in_app_or in He. destruct He as [He|He].
   { apply in_map_iff in He. destruct He as (j & <- & _). discriminate. }
   apply in_app_or in He. destruct He as [He|He].
   2:{ apply in_map_iff in He. destruct He as (j & <- & _). discriminate. }
-  apply in_flat_map in He. destruct He as ([i t] & Hin & He). cbn [fst snd] in He.
-  apply in_index_from_inv in Hin.
-  assert (Hlt : has_lenvar_defs (t_ins t) = false /\ has_lenvar_defs (flat_map stmt_decls_raw (t_body t)) = false).
-  { destruct (has_lenvar_defs (t_ins t) || has_lenvar_defs (flat_map stmt_decls_raw (t_body t))) eqn:Hx.
-    - assert (existsb (fun t0 => has_lenvar_defs (t_ins t0) || has_lenvar_defs (flat_map stmt_decls_raw (t_body t0)))
-                      (p_tasks p) = true) by (apply existsb_exists; exists t; auto). congruence.
-    - apply orb_false_iff in Hx. exact Hx. }
-  destruct Hlt as [Hli Hlb].
-  unfold task_visit_errs in He. rewrite (arraylen_errs_nil _ Hli) in He. cbn [app] in He.
+  apply in_flat_map in He. destruct He as ([i t] & _ & He). cbn [fst snd] in He.
+  unfold task_visit_errs in He. apply in_app_or in He. destruct He as [He|He].
+  { eapply arraylen_errs_position; [|exact He]. intro j. discriminate. }
   apply in_app_or in He. destruct He as [He|He].
   { apply in_map_iff in He. destruct He as (j & <- & _). discriminate. }
   rewrite body_visit_errs_concat in He.
-  destruct (concat_from_in _ _ _ _ He) as (j & x & Hx & Hex).
-  eapply stmt_visit_errs_position; [eapply has_lenvar_flat_map_in; eassumption | exact Hex].
+  destruct (concat_from_in _ _ _ _ He) as (j & x & _ & Hex).
+  eapply stmt_visit_errs_position. exact Hex.
 Qed.
 
-Definition C19_every_message_has_a_position : Prop :=
-  forall p es e, validate p = Ok es -> In e es -> snd e <> CNone.
+(* no reported line lies outside the file: every message of every program has a position *)
+Theorem every_message_has_a_position : forall p es e,
+  validate p = Ok es -> In e es -> snd e <> CNone.
+Proof.
+  intros p es e Hv He. unfold validate in Hv.
+  destruct (validate_process (visit_env p)) as [[b es0]| |k|] eqn:Hp; try discriminate.
+  injection Hv as <-. apply in_app_or in He. destruct He as [He|He].
+  - apply visit_errs_position with (p := p). exact He.
+  - eapply checker_messages_have_position; eassumption.
+Qed.
